@@ -4025,7 +4025,13 @@ impl CanonicalizeContext {
 		}
 	
 		parsed_mrow.remove_attribute(CHANGED_ATTR);
-		return Ok( add_attrs(parsed_mrow, &saved_mrow_attrs) );
+		// if the only child takes the place of the mrow, it keeps its own id (an author's id stays on the token it was put on)
+		let own_id = parsed_mrow.attribute_value("id").map(|id| id.to_string());
+		let parsed_mrow = add_attrs(parsed_mrow, &saved_mrow_attrs);
+		if let Some(id) = own_id {
+			parsed_mrow.set_attribute_value("id", &id);
+		}
+		return Ok( parsed_mrow );
 	}	
 }
 
